@@ -36,7 +36,8 @@ def run(ctx):
         n = 60 if ctx.tier == 'quick' else 800
         items = []
         for k in range(n):
-            kind = r.choice(['plain', 'plain', 'aa-file-at-2', 'watford-hi-start', 'watford-large', 'forge-18', 'side2-catalogue', 'opus'])
+            kinds = ['plain', 'aa-file-at-2', 'watford-hi-start', 'watford-large', 'forge-18', 'side2-catalogue', 'opus', 'plain']
+            kind = kinds[k % len(kinds)]      # every kind in every run, whatever the seed
             used = set()
             if kind == 'aa-file-at-2':
                 body = b'\xAA' * 8 + r.bytes(r.range(0, 600))
